@@ -13,7 +13,16 @@ def vocabulary():
 
     def keys(d):
         return sorted(k for k in d if isinstance(k, str))
-    return {'EM': keys(D._DESCR_E_MACHINE), 'OSABI': keys(D._DESCR_EI_OSABI), 'ET': keys(D._DESCR_E_TYPE),
+    from elftools.dwarf import descriptions as DD
+    from elftools.dwarf import enums as DE
+    # DWARF: <<attribute code (DWARF5 table 7.5), value>> for every value the clone describes, and every tag code it names
+    dwvals = []
+    for at, tab in ((0x13, DD._DESCR_DW_LANG), (0x3e, DD._DESCR_DW_ATE), (0x20, DD._DESCR_DW_INL), (0x32, DD._DESCR_DW_ACCESS),
+                    (0x17, DD._DESCR_DW_VIS), (0x4c, DD._DESCR_DW_VIRTUALITY), (0x42, DD._DESCR_DW_ID_CASE), (0x36, DD._DESCR_DW_CC),
+                    (0x09, DD._DESCR_DW_ORD)):
+        dwvals += [[at, int(k)] for k in sorted(tab) if isinstance(k, int) and 0 <= k < 65536]
+    dwtags = sorted(v for k, v in DE.ENUM_DW_TAG.items() if isinstance(v, int) and 0 < v < 65536 and k != 'DW_TAG_null')
+    return {'DWVALS': dwvals, 'DWTAGS': dwtags, 'EM': keys(D._DESCR_E_MACHINE), 'OSABI': keys(D._DESCR_EI_OSABI), 'ET': keys(D._DESCR_E_TYPE),
             'SHT': keys(D._DESCR_SH_TYPE), 'PT': keys(D._DESCR_P_TYPE), 'STT': keys(D._DESCR_ST_INFO_TYPE),
             'STB': keys(D._DESCR_ST_INFO_BIND), 'STV': keys(D._DESCR_ST_VISIBILITY), 'SHN': keys(D._DESCR_ST_SHNDX),
             'RELOC_386': keys(E.ENUM_RELOC_TYPE_i386), 'RELOC_X64': keys(E.ENUM_RELOC_TYPE_x64), 'RELOC_ARM': keys(E.ENUM_RELOC_TYPE_ARM),
